@@ -346,6 +346,15 @@ def make_script(vs, r, probes_model, rng, level="std", str_cap=48, pairs_cap=36,
             m = abs(reals.index(b) - reals.index(a)) + 1
             session(L, f"range:{model[a]}:{model[b]}:r{j}", f"range {bits(a)} {bits(b)}",
                     rand_path(rng.randint(3, 30), m), cons_for(j) if big and m > 5000 else (("count", 0) if big else CONSUMERS[j % len(CONSUMERS)]))
+    if n > 6:
+        # ranges that touch the ends of the list, whatever the random choices above were
+        srt = sorted(reals)
+        for j, (a, b) in enumerate(((srt[0], srt[-1]), (srt[0], srt[0]), (srt[-1], srt[-1]), (srt[1], srt[-1]), (srt[0], srt[-2]), (srt[-1], srt[0]),
+                                    (srt[-2], srt[-1]), (srt[n // 2], srt[-1]))):
+            m = abs(srt.index(b) - srt.index(a)) + 1
+            cons = [("count", 0), ("last", 0), ("rev_collect", 0), ("collect", 0)][j % 4] if m <= 5000 else ("count", 0)
+            session(L, f"range:{model[a]}:{model[b]}:e{j}", f"range {bits(a)} {bits(b)}",
+                    [("next", 0), ("next_back", 0), ("nth", 1)][: j % 4], cons)
     if n <= 64:
         # the names iterator has ordered items (&str): min / max are by name, not by position
         for cons in NAME_CONSUMERS:
@@ -761,9 +770,10 @@ class Plan:
             cases = [self.new_case(r, vs, cfg, script, f"large{len(reals)}:{lab}") for lab, cfg in (ks[:3] if len(reals) < 1000 else ks[1:3])]
             self.add_group("C09", cases, "large")
             # the same enum in hostile scopes (C16): scope slips may hide in shape-specific branches of the generated code
-            lab, cfg = ks[1] if len(reals) % 2 else ks[2]
-            twins = [self.new_case(r, vs, cfg, script, f"ctxlarge{len(reals)}:{lab}:{c}", ctx=c) for c in ("plain", "no_prelude", "all_types", "all_traits")]
-            self.add_group("C16", twins, "contexts")
+            # (gapless: under the explicit table configuration AND under auto -- size-dependent branches exist in both)
+            for lab, cfg in ([ks[1], ks[2]] if gapless and len(reals) < 1000 else [ks[1] if len(reals) % 2 else ks[2]]):
+                twins = [self.new_case(r, vs, cfg, script, f"ctxlarge{len(reals)}:{lab}:{c}", ctx=c) for c in ("plain", "no_prelude", "all_types", "all_traits")]
+                self.add_group("C16", twins, "contexts")
 
     # -- N: every special rename string, in every string mode, independent of the seed (C03, C04, C08)
     def names_fixed(self):
